@@ -1,0 +1,10 @@
+//go:build verif
+
+// Contracts for package inproc (comment-only; read by /verif/govc).
+
+package inproc
+
+//@ struct inproc
+//@   immutable: rq wq closeq readyq selfProto peerProto addr
+//@   never_closed: rq wq
+//@   elem_invariant rq, wq: elem != nil && arrof(elem.Header) != arrof(elem.Body) && len(elem.Header) == 0
